@@ -72,6 +72,17 @@ class HarnessError(Exception):
     pass
 
 
+def _die_with_parent() -> None:
+    """An isolated child must never outlive its worker (Linux: PR_SET_PDEATHSIG)."""
+    try:
+        import ctypes
+        import signal
+
+        ctypes.CDLL("libc.so.6", use_errno=True).prctl(1, signal.SIGKILL)
+    except Exception:  # noqa: BLE001,S110
+        pass
+
+
 def run_isolated(check, scn):
     """Run one scenario in a forked child of this (pristine) interpreter.
 
@@ -90,6 +101,7 @@ def run_isolated(check, scn):
         code = 0
         try:
             os.close(r)
+            _die_with_parent()
             res = run_one(check, scn)
             payload = json.dumps(
                 {
@@ -112,7 +124,18 @@ def run_isolated(check, scn):
             os._exit(code)
     os.close(w)
     chunks = []
+    import select
+    import signal
+
+    deadline = time.monotonic() + float(os.environ.get("VERIF_RUN_TIMEOUT_S", "300"))
     while True:
+        ready, _, _ = select.select([r], [], [], max(0.0, deadline - time.monotonic()))
+        if not ready:
+            # step caps do not bound hangs: a run that exceeds its wall limit is killed
+            os.kill(pid, signal.SIGKILL)
+            os.waitpid(pid, 0)
+            os.close(r)
+            raise HarnessError("isolated run exceeded its wall limit and was killed")
         b = os.read(r, 1 << 16)
         if not b:
             break
@@ -147,8 +170,9 @@ def condensed(scn) -> dict:
 def main() -> int:
     cfg = json.loads(sys.argv[1])
     faulthandler.enable()
-    if cfg.get("hard_timeout"):
-        faulthandler.dump_traceback_later(cfg["hard_timeout"], exit=True)
+    # No faulthandler.dump_traceback_later here: its watchdog thread does not exist in
+    # a forked child, and anything there that cancels it (pytest does) would wait for
+    # it for ever.  Hangs are bounded per run (run_isolated) and per worker (driver).
     gc.disable()  # S3: finalizers run only when the scheduler says so
     sys.unraisablehook = lambda u: None  # finalizer noise (double rmtree) is not an event
 
@@ -160,6 +184,8 @@ def main() -> int:
     from dsim.driver import load_findings
 
     check = load(cfg["check"])
+    if hasattr(check, "preload"):
+        check.preload()
     tier = cfg.get("tier", "quick")
     open_findings = [f for f in load_findings() if f["property"] == cfg["check"] and f.get("status") == "open"]
     known_seen: dict = {}
